@@ -8,6 +8,7 @@ The closed forms (arithmetic mean, population variance, sum alpha(1-alpha)^(n-i)
 these recurrences in Lean (lemmas/Lemmas.lean: welford_mean_closed, var_identity, es_closed).
 """
 import z3
+from fractions import Fraction
 from pyvc.spec import *
 
 F = 'ixai/utils/tracker/'
@@ -34,8 +35,23 @@ cls('Tracker', file=F + 'base.py',
     })
 
 
+GAINF = z3.Function('tracker_gain', z3.IntSort(), z3.RealSort(), z3.IntSort(), z3.RealSort())
+
+
 def _gain(s):
-    return ite(s.kind == 0, 1 / R(s.N + 1), s.alpha)
+    """the gain of the next step: a function of (kind, alpha, N) only - named, so that trackers in lock-step have
+    syntactically congruent gains; its value is given by gain_def()"""
+    if isinstance(s.N, int):
+        return Fraction(1, s.N + 1) if s.kind == 0 else s.alpha      # concrete evaluation during replay
+    return GAINF(s.kind, s.alpha, s.N)
+
+
+def gain_def():
+    """definition: Welford 1/(N+1), exponential smoothing alpha"""
+    from pyvc import sym
+    k, n = z3.Ints('gd!k gd!n')
+    a = z3.Real('gd!a')
+    return [sym.forall([k, a, n], GAINF(k, a, n) == z3.If(k == 0, 1 / z3.ToReal(n + 1), a), [GAINF(k, a, n)])]
 
 
 def _ghost_step(c):
@@ -130,6 +146,7 @@ fn('WelfordTracker.__init__', F + 'welford.py', kind='init', self_cls='Tracker',
    ensures={'fresh': lambda c: land(c.new.N == 0, c.new.tracked_value == 0, c.new.kind == 0)})
 
 fn('WelfordTracker.update', F + 'welford.py', params={'value_i': TNum}, self_cls='Tracker',
+   entry_lemmas=lambda c: gain_def(),
    requires={'is_welford': lambda c: c.old.kind == 0},
    ensures={
        # mean' = (S1 + v) / (N + 1): the arithmetic mean of all values seen
@@ -171,6 +188,7 @@ fn('ExponentialSmoothingTracker.__init__', F + 'exponential_smoothing.py', kind=
             'alpha_ok': lambda c: land(0 <= c.a.alpha, c.a.alpha <= 1)})
 
 fn('ExponentialSmoothingTracker.update', F + 'exponential_smoothing.py', params={'value_i': TNum}, self_cls='Tracker',
+   entry_lemmas=lambda c: gain_def(),
    requires={'is_es': lambda c: c.old.kind == 1},
    ensures={
        # the reference recursion ES(h ++ [v]) = (1 - alpha) ES(h) + alpha v
